@@ -28,23 +28,27 @@ abbrev Record := List Field
 /-- `[None, x][bool(x)]` for a decoded string -/
 def nullIfEmpty (s : Str) : Option Str := if s.isEmpty then none else some s
 
-def decodeItems (E : Encoding) : List Bytes → Except Err (List (Option Str))
+/-- a Python list comprehension whose element expression may raise: evaluate left to right, stop at
+    the first exception -/
+def mapME {α β : Type} (f : α → Except Err β) : List α → Except Err (List β)
   | [] => .ok []
-  | b :: bs => do
-    let s ← E.dec b
-    let rest ← decodeItems E bs
-    pure (nullIfEmpty s :: rest)
+  | a :: as => do
+    let b ← f a
+    let rest ← mapME f as
+    pure (b :: rest)
+
+def decodeItem (E : Encoding) (b : Bytes) : Except Err (Option Str) := do
+  let s ← E.dec b
+  pure (nullIfEmpty s)
+
+def decodeItems (E : Encoding) (bs : List Bytes) : Except Err (List (Option Str)) := mapME (decodeItem E) bs
 
 /-- codec.decode_component -/
 def decodeComponent (E : Encoding) (field : Bytes) : Except Err (List (Option Str)) :=
   decodeItems E (splitOnByte COMPONENT_SEP field)
 
-def decodeComponents (E : Encoding) : List Bytes → Except Err (List (List (Option Str)))
-  | [] => .ok []
-  | b :: bs => do
-    let c ← decodeComponent E b
-    let rest ← decodeComponents E bs
-    pure (c :: rest)
+def decodeComponents (E : Encoding) (bs : List Bytes) : Except Err (List (List (Option Str))) :=
+  mapME (decodeComponent E) bs
 
 /-- codec.decode_repeated_component -/
 def decodeRepeated (E : Encoding) (component : Bytes) : Except Err (List (List (Option Str))) :=
@@ -58,26 +62,16 @@ def decodeField (E : Encoding) (item : Bytes) : Except Err Field :=
     let c ← decodeComponent E item
     pure (if c.isEmpty then .null else .comp c)
   else do
-    let s ← E.dec item
-    pure (match nullIfEmpty s with | none => .null | some t => .text t)
+    let o ← decodeItem E item
+    pure (match o with | none => .null | some t => .text t)
 
-def decodeFields (E : Encoding) : List Bytes → Except Err Record
-  | [] => .ok []
-  | b :: bs => do
-    let f ← decodeField E b
-    let rest ← decodeFields E bs
-    pure (f :: rest)
+def decodeFields (E : Encoding) (bs : List Bytes) : Except Err Record := mapME (decodeField E) bs
 
 /-- codec.decode_record -/
 def decodeRecord (E : Encoding) (record : Bytes) : Except Err Record :=
   decodeFields E (splitOnByte FIELD_SEP record)
 
-def decodeRecords (E : Encoding) : List Bytes → Except Err (List Record)
-  | [] => .ok []
-  | b :: bs => do
-    let r ← decodeRecord E b
-    let rest ← decodeRecords E bs
-    pure (r :: rest)
+def decodeRecords (E : Encoding) (bs : List Bytes) : Except Err (List Record) := mapME (decodeRecord E) bs
 
 /-- `frame[:1].decode()` (UTF-8) followed by `str.isdigit()` : for one byte this is "ASCII digit";
     a byte ≥ 0x80 alone is not valid UTF-8 -/
@@ -153,24 +147,15 @@ def encodeLeaf (E : Encoding) : Leaf → Except Err Bytes
   | .bytes b => .ok b
   | .int n => E.enc (intStr n)
 
-def encodeLeaves (E : Encoding) : List Leaf → Except Err (List Bytes)
-  | [] => .ok []
-  | l :: ls => do
-    let b ← encodeLeaf E l
-    let rest ← encodeLeaves E ls
-    pure (b :: rest)
+def encodeLeaves (E : Encoding) (ls : List Leaf) : Except Err (List Bytes) := mapME (encodeLeaf E) ls
 
 /-- codec.encode_component on a list of scalars -/
 def encodeComponent (E : Encoding) (ls : List Leaf) : Except Err Bytes := do
   let items ← encodeLeaves E ls
   pure (rstripOf [COMPONENT_SEP] (joinWith COMPONENT_SEP items))
 
-def encodeComponents (E : Encoding) : List (List Leaf) → Except Err (List Bytes)
-  | [] => .ok []
-  | c :: cs => do
-    let b ← encodeComponent E c
-    let rest ← encodeComponents E cs
-    pure (b :: rest)
+def encodeComponents (E : Encoding) (cs : List (List Leaf)) : Except Err (List Bytes) :=
+  mapME (encodeComponent E) cs
 
 /-- codec.encode_repeated_component -/
 def encodeRepeated (E : Encoding) (cs : List (List Leaf)) : Except Err Bytes := do
@@ -182,24 +167,14 @@ def encodeField (E : Encoding) : EField → Except Err Bytes
   | .comp ls => encodeComponent E ls
   | .rep cs => if cs.isEmpty then encodeComponent E [] else encodeRepeated E cs
 
-def encodeFields (E : Encoding) : List EField → Except Err (List Bytes)
-  | [] => .ok []
-  | f :: fs => do
-    let b ← encodeField E f
-    let rest ← encodeFields E fs
-    pure (b :: rest)
+def encodeFields (E : Encoding) (fs : List EField) : Except Err (List Bytes) := mapME (encodeField E) fs
 
 /-- codec.encode_record -/
 def encodeRecord (E : Encoding) (r : ERecord) : Except Err Bytes := do
   let fs ← encodeFields E r
   pure (joinWith FIELD_SEP fs)
 
-def encodeRecords (E : Encoding) : List ERecord → Except Err (List Bytes)
-  | [] => .ok []
-  | r :: rs => do
-    let b ← encodeRecord E r
-    let rest ← encodeRecords E rs
-    pure (b :: rest)
+def encodeRecords (E : Encoding) (rs : List ERecord) : Except Err (List Bytes) := mapME (encodeRecord E) rs
 
 /-- codec.encode_message (seq is a natural number here) -/
 def encodeMessage (E : Encoding) (seq : Nat) (records : List ERecord) : Except Err Bytes := do
